@@ -260,6 +260,7 @@ def run(rep, tier, root=None):
 
     # ---------------------------------------------------------------- projection
     projection_rules(rep, ix, fx, cls, om)
+    float_positions_rule(rep, cls.find_method("make_covariance_matrix"))
 
     # ---------------------------------------------------------------- lower / mirror
     mf = ix.func(MOD, "mirror_covariance_matrix")
@@ -541,6 +542,31 @@ def _is_pair_source(a):
         b2 = base.args[0].single_atom() if isinstance(base.args[0], Rat) else None
         return isinstance(b2, Fn) and (b2.name.startswith("?method_map") or b2.name.startswith("?method_starmap"))
     return False
+
+
+def float_positions_rule(rep, top):
+    """the un-projected positions start as integer indices (numpy.where); they must be floating before a float is added
+    or subtracted in place, whatever the dtype of the diameters handed in (an int64 array `-= D/2.` raises)"""
+    floaty = lambda e: any((isinstance(x, ast.Call) and norm_text(x.func).split(".")[-1] in ("float", "float64", "astype", "asarray", "array") and
+                            ("float" in norm_text(x))) or (isinstance(x, ast.Constant) and isinstance(x.value, float)) or
+                           (isinstance(x, ast.BinOp) and isinstance(x.op, ast.Div)) for x in ast.walk(e))
+    found = 0
+    for n in ast.walk(top.node):
+        if isinstance(n, ast.Assign) and len(n.targets) == 1 and isinstance(n.targets[0], ast.Name) and \
+                any(isinstance(x, ast.Call) and norm_text(x.func).split(".")[-1] in ("where", "nonzero", "argwhere", "indices") for x in ast.walk(n.value)):
+            name = n.targets[0].id
+            if floaty(n.value):
+                continue
+            for m in ast.walk(top.node):
+                if isinstance(m, ast.AugAssign) and isinstance(m.target, ast.Name) and m.target.id == name and m.lineno > n.lineno and floaty(m.value):
+                    found += 1
+                    rep.violation("project.float-positions", "%s: `%s` on integer indices" % (top.fq, norm_text(m)[:60]),
+                                  "`%s` is numpy.where(...) times the sub-aperture diameter: with an integer diameter (subap_diameters=[1, 1]) it is "
+                                  "an int64 array, and the in-place `%s` with a float operand raises UFuncTypeError - make_covariance_matrix "
+                                  "cannot be called with integer diameters" % (name, norm_text(m)[:60]), top.where(m))
+                    break
+    if not found:
+        rep.ok("project.float-positions", top.fq + ": positions are floating before floats are added in place")
 
 
 def projection_rules(rep, ix, fx, cls, om):
